@@ -622,7 +622,7 @@ func c04Exec(in []string) []string {
 		return nil, nil
 	})
 	op := &runtime.ClientOperation{
-		ID: "op" + proto.N(c.op), Method: strings.ToUpper(c.methods[c.op]), PathPattern: c.templates[c.op],
+		ID: "op" + proto.N(c.op), Method: c04WireMethod(c), PathPattern: c.templates[c.op],
 		Schemes: []string{"http"}, Params: c04Writer{c}, Reader: reader,
 	}
 	switch {
@@ -1158,4 +1158,13 @@ func c04Gen(r *proto.Rng, n int, tier string, emit func(in ...string)) {
 			emit(c04W(c04GenCase(r, tier))...)
 		}
 	}
+}
+
+// c04WireMethod: the method the client operation names — upper case as generated clients spell it, or (every
+// other case) as the description spells it (lower or mixed case): servers must treat both alike.
+func c04WireMethod(c *c04Case) string {
+	if (len(c.templates[c.op])+len(c.body)+len(c.fkeys))%2 == 1 {
+		return c.methods[c.op]
+	}
+	return strings.ToUpper(c.methods[c.op])
 }
